@@ -320,6 +320,22 @@ def run(ctx):
                   'rdp_infos: with auto_logon=%s the flag word is %s and the path also depends on %s: INFO_AUTOLOGON must be set exactly when requested'
                   % (al[0], show(val), others))
     ctx.check(seen == {True, False}, 'R17.4', 'rdp_infos:coverage', 'both auto_logon values are encoded', ri.where())
+    # the auto-logon request only *adds* INFO_AUTOLOGON: every other bit of the flag word (INFO_UNICODE, INFO_MOUSE, ...) is the same in both modes
+    flag_words = {}
+    for sh, fl in dsl.returned_components(P, 'core::sec::rdp_infos'):
+        al = [branch_truth(ev) for ev in path_branches(sh.st) if strip(ev[2]) == ('param', 5)]
+        f = [x for x in fl if x.key == 'flag']
+        if f and len(al) == 1:
+            cv = [fold(c) for c in walk(fold(f[0].expr)) if c[0] == 'agg' and c[1] == 'model::data::Value']
+            val = fold(cv[0][3][0]) if cv else ('unknown',)
+            if val[0] == 'const' and val[1] is not None:
+                flag_words.setdefault(al[0], set()).add(val[1])
+    INFO_UNICODE = 0x10
+    ok_bits = flag_words.get(True) and flag_words.get(False) and {v & ~AUTOLOGON for v in flag_words[True]} == {v & ~AUTOLOGON for v in flag_words[False]} \
+        and all(v & INFO_UNICODE for vs in flag_words.values() for v in vs)
+    ctx.check(bool(ok_bits), 'R17.4', 'rdp_infos:other_bits', 'apart from INFO_AUTOLOGON the flag word is identical with and without auto-logon, and announces INFO_UNICODE',
+              ri.where(), 'rdp_infos: the Client Info flag words %s differ in more than INFO_AUTOLOGON between the two modes (or lose INFO_UNICODE 0x10 although the strings '
+              'are UTF-16): the packet no longer describes its own strings' % {k: sorted(hex(v) for v in vs) for k, vs in flag_words.items()})
     sc = ctx.body('core::sec::connect')
     for c in sc.calls_to('core::sec::rdp_infos'):
         o = origins(sc, c.args[4])
